@@ -85,7 +85,7 @@ PROBES = ['resp-checked', 'resp-checked:fault-free', 'resp-checked:faulty', 'kee
           'kind:stream', 'kind:nobody', 'kind:error', 'kind:sfile', 'kind:bodygen', 'non-canonical-path', 'further-request-after-redirect',
           'short-read-fileobj', 'short-read-fileobj:return', 'short-read-fileobj:body', 'short-read-fileobj:body-nostream', 'status-class:1', 'status-class:2', 'status-class:3', 'status-class:4', 'status-class:5']
 TIERS = {
-    'quick': dict(runs=12000, wall=26, chunk=25, cfg=dict(max_requests=5, sizes=0, round_cap=6000)),
+    'quick': dict(runs=18000, wall=26, chunk=25, cfg=dict(max_requests=5, sizes=0, round_cap=6000)),
     'thorough': dict(runs=150000, wall=580, chunk=100, cfg=dict(max_requests=10, sizes=1, round_cap=30000)),
 }
 
@@ -424,8 +424,9 @@ def _run(ctx):
     Root().register(srv)
     PushApp().register(srv)
     for i, s in enumerate(specs):
-        ctx.trace('method /m%d: %s size=%d status=%s%s%s' % (i, shape_of(s), s['size'], s['status'] or s['code'] or s['cls'] or '-',
-                                                            ' non-ascii' if s['nonascii'] else '', ' pieces=%r' % (s['pieces'],) if s['pieces'] else ''))
+        ctx.trace('method /m%d: %s size=%d status=%s%s%s%s' % (i, shape_of(s), s['size'], s['status'] or s['code'] or s['cls'] or '-',
+                                                              ' non-ascii' if s['nonascii'] else '', ' pieces=%r' % (s['pieces'],) if s['pieces'] else '',
+                                                              ' file-like (%s, %s), read() delivers at most %r' % (s['how'], 'text' if s['textmode'] else 'binary', s['reads']) if s['reads'] else ''))
     ctx.trace('server: %s, SO_SNDBUF=%s, encoding=%s, faults=%s rate 1/%d' % (poller.__name__, NET.sndbuf, enc, sorted(pol.kinds) or 'none', pol.rate))
 
     def do_pushes():
